@@ -14,6 +14,15 @@ static Spec random_spec(Rng& r, long c, bool small) {
     static const uint32_t odd[] = {9, 15, 21, 33, 47, 65};
     s.n = small ? (uint32_t)r.range(10, 24) : (r.chance(0.25) ? odd[r.range(0, 5)] : (uint32_t)r.range(8, M.thorough() ? 128 : 96));
     s.nb = (uint32_t)r.range(1, 3);
+    // scale: one case in twelve is large in one dimension - cells per axis beyond 256 / 512 / 1024 / 2048 (also with displacements of more
+    // than 1024 cells), bunch counts beyond 16 and beyond 256 (index types, blocked or grouped loops, fixed-size tables)
+    if (!small && (c / K_NKINDS) % 12 == 7) {
+        static const uint32_t big_n[] = {257, 300, 513, 520, 1030, 2100, 4200};
+        static const uint32_t big_nb[] = {17, 20, 33, 40, 257, 300};
+        if (r.chance(0.5)) { s.n = big_n[r.range(0, 6)]; s.nb = (s.n > 1100) ? 1 : (uint32_t)r.range(1, 2); }
+        else { s.nb = big_nb[r.range(0, 5)]; s.n = (uint32_t)r.range(12, 20); }
+        M.ev("scale_cases");
+    }
     s.it = 1 + (int)((c / K_NKINDS) % 4);
     if (r.chance(0.5)) { s.shiftx = r.uni(-3, 3); s.shifty = r.uni(-3, 3); }
     double amp = std::max(0.0, std::min(s.n / 4.0, (s.n - 8) / 2.0 - 1));
